@@ -620,10 +620,12 @@ def enum_placements():
     i = 0
     for kind, r in recvs:
         for to in (False, True):
-            e = EMIT_TO(r, "evt-name", V("user")) if to else EMIT(r, "evt-name", V("user"))
-            for pname, body in placements(e).items():
+            for pname in placements(V("x")):
                 i += 1
-                cases.append(single(body, zod=(i % 7 == 0)))
+                bare = i % 3 == 1            # every third case: the enclosing function takes no parameters at all
+                pay = ["struct", ["User"]] if bare else V("user")
+                e = EMIT_TO(r, "evt-name", pay) if to else EMIT(r, "evt-name", pay)
+                cases.append(single(placements(e)[pname], zod=(i % 7 == 0), params=[] if bare else None))
     return cases
 
 
